@@ -324,6 +324,29 @@ impl<Db: Database> StorageManager<Db> {
         Ok(record)
     }
 
+    /// Retrieve a stored record from the cache or the data layer, ignoring any pending transaction.
+    ///
+    /// This is how the epoch record ([crate::Azks]) is read: it decides which epoch a request is
+    /// answered from, so the record of an epoch which is still being written (and may yet be
+    /// rolled back) must not become visible to requests running concurrently with a publish.
+    pub async fn get_committed<St: Storable>(
+        &self,
+        id: &St::StorageKey,
+    ) -> Result<DbRecord, StorageError> {
+        if let Some(cache) = &self.cache {
+            if let Some(result) = cache.hit_test::<St>(id).await {
+                return Ok(result);
+            }
+        }
+
+        let record = self.get_direct::<St>(id).await?;
+        if let Some(cache) = &self.cache {
+            // cache the result
+            cache.put(&record).await;
+        }
+        Ok(record)
+    }
+
     /// Retrieve from the cache only, not falling through to the data-layer. Check's the transaction
     /// if active.
     pub async fn get_from_cache_only<St: Storable>(&self, id: &St::StorageKey) -> Option<DbRecord> {
